@@ -628,34 +628,52 @@ def rule_policy_in_force(prog, fixture=False):
                    "stands: the connect_drives call that takes the policy variable lies inside the option loop that "
                    "assigns that variable (a later loop would attach every image under the last policy given)",
                    floor=0 if fixture else 1)
+    LOOPS = ("ForStmt", "WhileStmt", "DoStmt", "CXXForRangeStmt")
+
+    def judge(fn, n, v, via, depth):
+        """n: a call in fn one of whose arguments is the policy expression v."""
+        v = strip_all(v)
+        if v is None or depth > 3:
+            return
+        if v.get("k") == "DeclRefExpr" and v.get("dk") == "ParmVar":
+            idx = [i for i, p_ in enumerate(fn.params) if p_["d"] == v["d"]]
+            for g in prog.functions.values():
+                for c in g.walk():
+                    if is_call(c) and fn in prog.call_targets(g, c) and idx and idx[0] < len(call_args(c)):
+                        judge(g, c, call_args(c)[idx[0]], via + [fn.name], depth + 1)
+            return
+        if v.get("k") != "DeclRefExpr" or v.get("dk") != "Var":
+            return
+        writes = [w for w in fn.walk() if w.get("k") == "BinaryOperator" and w.get("op") == "=" and
+                  (strip_all(w["c"][0]) or {}).get("d") == v["d"]]
+        key = "%s::%s::connect_drives(%s)" % (fn.relfile(), fn.qn, v.get("n"))
+        if not writes:
+            r.add(key, fn.loc(n), True, "the policy is never changed", nontrivial=False)
+            return
+        wl = set()
+        for w in writes:
+            for anc in fn.ancestors(w):
+                if anc.get("k") in LOOPS:
+                    wl.add(id(anc))
+                    break
+        mine = [id(anc) for anc in fn.ancestors(n) if anc.get("k") in LOOPS]
+        ok = bool(wl) and all(x in mine for x in wl)
+        r.add(key, fn.loc(n), ok, "attached in the option loop, where the policy is current%s" %
+              (" (through %s)" % ", ".join(via) if via else "") if ok else
+              "the images are attached outside the loop in which `%s` is assigned (%s): every image is placed under "
+              "the policy given last, not the one in force at its --file" %
+              (v.get("n"), ", ".join(fn.loc(w) for w in writes[:2])))
     for fn in prog.functions.values():
-        if fn.name != "main" and not fixture:
-            continue
         for n in fn.walk():
             if not is_call(n) or notpl(n.get("q") or "").split("::")[-1] != "connect_drives":
                 continue
             for a in call_args(n):
                 v = strip_all(a)
-                if v is None or v.get("k") != "DeclRefExpr" or v.get("dk") != "Var" or "DriveAllocation" not in (v.get("t") or ""):
+                if v is None or v.get("k") != "DeclRefExpr" or "DriveAllocation" not in (v.get("t") or v.get("ct") or ""):
                     continue
-                writes = [w for w in fn.walk() if w.get("k") == "BinaryOperator" and w.get("op") == "=" and
-                          (strip_all(w["c"][0]) or {}).get("d") == v["d"]]
-                key = "%s::%s::connect_drives(%s)" % (fn.relfile(), fn.qn, v.get("n"))
-                if not writes:
-                    r.add(key, fn.loc(n), True, "the policy is never changed", nontrivial=False)
-                    continue
-                wl = set()
-                for w in writes:
-                    for anc in fn.ancestors(w):
-                        if anc.get("k") in ("ForStmt", "WhileStmt", "DoStmt", "CXXForRangeStmt"):
-                            wl.add(id(anc))
-                            break
-                mine = [id(anc) for anc in fn.ancestors(n) if anc.get("k") in ("ForStmt", "WhileStmt", "DoStmt", "CXXForRangeStmt")]
-                ok = bool(wl) and all(x in mine for x in wl)
-                r.add(key, fn.loc(n), ok, "attached in the option loop, where the policy is current" if ok else
-                      "the images are attached outside the loop in which `%s` is assigned (%s): every image is placed under "
-                      "the policy given last, not the one in force at its --file" %
-                      (v.get("n"), ", ".join(fn.loc(w) for w in writes[:2])))
+                if fn.name == "connect_drives":
+                    continue            # the images' own connect_drives forwarding to the storage configuration
+                judge(fn, n, v, [], 0)
     return r
 
 
